@@ -1568,7 +1568,13 @@ func concHistory(h histSpec) {
 			report("conc-final-lost", "content pushed successfully, never deleted, absent at quiescence: "+k)
 		}
 	}
-	run.Case(id, fmt.Sprintf("lin %s %d %s %s #%s:conc:%d:%d:%d", h.Kind, len(probe), strings.Join(toks, " "), strings.Join(ptoks, " "),
+	diskTok := ""
+	if h.Kind != "mem" {
+		// on-disk observable at quiescence: the order found must end with exactly these files
+		diskTok = " K=" + strings.TrimPrefix(u.diskTok(h.Kind), "K:")
+		run.Count("conc-" + h.Kind + "/disk-compared")
+	}
+	run.Case(id, fmt.Sprintf("lin %s %d %s %s%s #%s:conc:%d:%d:%d", h.Kind, len(probe), strings.Join(toks, " "), strings.Join(ptoks, " "), diskTok,
 		h.Kind, h.HSeed, h.NOps, h.Thr), "LIN ok")
 	run.Nontrivial("conc " + h.Kind + " " + strings.Join(toks, " "))
 	if run.Rand.Chance(1, 20) {
